@@ -168,6 +168,7 @@ type pxRt struct {
 	nextDial int
 	slow     map[string]chan struct{} // slow dials waiting for their release
 	reattach map[string]int           // name -> connection number to attach in the disconnect callback
+	onRoute  map[string]chan struct{} // name -> released when the interceptor sees an envelope for that name
 	unwound  bool
 	g        *gateTab // holds the dispatcher: arm / rel steps, GatePark / GatePass events
 
@@ -207,6 +208,12 @@ func (rt *pxRt) hookEmit(name string, obj any, id uint64, n int, s string) {
 
 func (rt *pxRt) intercept(h *goatorepo.RequestHeader) error {
 	rt.g.gate("px.icpt", nil, 0) // application code that takes its time (arm step)
+	rt.mu.Lock()
+	if ch, ok := rt.onRoute[h.Destination]; ok { // "attach_on_route": a peer attaches while its first envelope is being routed
+		delete(rt.onRoute, h.Destination)
+		close(ch)
+	}
+	rt.mu.Unlock()
 	switch rt.sc.Icpt.Kind {
 	case "rw":
 		if h.Destination == rt.sc.Icpt.From {
@@ -334,6 +341,30 @@ func (rt *pxRt) step(st pxStep) {
 				}
 			}
 		}
+	case "attach_on_route":
+		// AddClient(Name, connection Conn) runs in a goroutine of its own, started by the interceptor when the first
+		// envelope for Name is on its way through forwardRpc: an application's accept path racing the dispatcher
+		ch := make(chan struct{})
+		rt.mu.Lock()
+		if rt.onRoute == nil {
+			rt.onRoute = map[string]chan struct{}{}
+		}
+		rt.onRoute[st.Name] = ch
+		rt.mu.Unlock()
+		go func() {
+			select {
+			case <-ch:
+			case <-rt.root.Done():
+				return
+			}
+			c := rt.newConn(st.Name, st.Conn)
+			e := ev("Attach")
+			e.K, e.N, e.Res = st.Name, st.Conn, "async"
+			tr.emit(e)
+			rt.p.AddClient(st.Name, pxProxyEnd{c})
+			e.Ev = "AttachRet"
+			tr.emit(e)
+		}()
 	case "arm":
 		rt.g.arm(st.Gate, st.Id, st.N)
 	case "rel":
